@@ -727,7 +727,10 @@ def layout_pairs(ctx, r, fam):
             et = prog.ty_str(prog.strip_refs(e.locals[1]))
             dt = prog.ty_str(d.locals[0])
             e_base = et.split("<")[0]
-            if e_base in dt or (("BTreeMap" in et) and ("BTreeMap" in dt)):
+            # the encoded value is a crate-local type (or a map of them); a function that merely assembles bytes
+            # from scalars (record framing) is not a codec of the decoders looked at here
+            e_local = prog.adt_of(e.locals[1])[0] in prog.adts
+            if (e_local and e_base in dt) or (("BTreeMap" in et) and ("BTreeMap" in dt)):
                 pairs.append((e, d))
     r.check(len(pairs) >= 2, "pairs", None, "codec pairs: %s" % ", ".join("%s/%s" % (e.path.split("::")[-1], d.path.split("::")[-1]) for e, d in pairs),
             "expected at least 2 encoder/decoder pairs, found %d" % len(pairs))
